@@ -509,6 +509,18 @@ func (i *Interp) ufResult(fn *ssa.Function, args []value) value {
 	}
 	k, ok := basicKindOf(res.At(0).Type())
 	if !ok || !kindIsInt(k) {
+		// struct of integers (xxh3.Uint128 {Hi, Lo}): one uninterpreted function per field
+		if st, ok := res.At(0).Type().Underlying().(*types.Struct); ok {
+			out := make(structure, st.NumFields())
+			for j := range out {
+				fk, ok := basicKindOf(st.Field(j).Type())
+				if !ok || !kindIsInt(fk) {
+					panic(i.unsupported("uf stub result struct must have integer fields: " + fn.String()))
+				}
+				out[j] = i.ufApply(ufName(fn.String())+"_"+st.Field(j).Name(), fk, args)
+			}
+			return out
+		}
 		panic(i.unsupported("uf stub result must be an integer: " + fn.String()))
 	}
 	return i.ufApply(ufName(fn.String()), k, args)
